@@ -114,7 +114,7 @@ class ConfResult:
 
 def run_assign_confidence(tables, scores, conf, workdir, name, fmt="pin", row_group=None, sched_desc=None,
                           knobs=None, glob_seed=None, faults=None, killable=False, report_path=None,
-                          dest=None, descs=None, max_workers=1, read_workers=1):
+                          dest=None, descs=None, max_workers=1, read_workers=1, fasta_seed=None):
     """read_pin (un-simulated, 1 worker) then assign_confidence under the simulator."""
     import mokapot
 
@@ -131,6 +131,15 @@ def run_assign_confidence(tables, scores, conf, workdir, name, fmt="pin", row_gr
             world.materialise(t, p, fmt, row_group)
         paths.append(p)
     datasets = mokapot.read_pin(paths, max_workers=read_workers)
+    proteins = None
+    if fasta_seed is not None:
+        # protein-level confidence: a FASTA file (in the input directory) whose digest yields the tables' peptides
+        from . import pipeline as P
+
+        fa = root / f"db_{fasta_seed}.fasta"
+        if not fa.exists():
+            datagen.write_fasta(fa, P.fasta_for_tables(tables, fasta_seed, pep_per_prot=1))  # small tables: many small proteins
+        proteins = mokapot.read_fasta(fa, missed_cleavages=0)
     prefixes = conf.get("prefixes")
     if prefixes is None:
         prefixes = [None] * len(paths)
@@ -150,6 +159,7 @@ def run_assign_confidence(tables, scores, conf, workdir, name, fmt="pin", row_gr
                 decoys=conf.get("decoys", True),
                 deduplication=conf.get("dedup", True),
                 do_rollup=conf.get("rollup", True),
+                proteins=proteins,
                 rng=conf.get("seed", 0),
             )
         except (Exception, SystemExit) as exc:  # noqa: BLE001  (triqler calls sys.exit on degenerate input)
